@@ -546,7 +546,7 @@ Definition queried (T : tables) (ops : list bop) : qdom := queried_from T (mkBst
 
 (* ---- operations other than BVerifyCached / CNew neither read nor write the caches *)
 Definition plain (o : bop) : bool :=
-  match o with BVerifyCached _ _ | CNew _ _ _ => false | _ => true end.
+  match o with BVerifyCached _ _ | CNew _ _ _ | CPurge _ => false | _ => true end.
 
 Lemma bstep_plain T σ o : plain o = true ->
   bstep T σ o = (mkBst (bs (fst (bstep T (mkBst (bs σ) []) o))) (cs_ σ),
@@ -615,7 +615,7 @@ Proof.
   - rewrite (plain_erase o P), (plain_proj o _ P).
     rewrite (bstep_plain T σ1 o P), (bstep_plain T σ2 o P), Hbs; cbn [fst snd bs cs_].
     split; [split; [reflexivity | exact Hcs] | reflexivity].
-  - destruct o as [? ?|? ?|? ?|? ? ?|? ?|?|vb vf|? ?|? ?|?|?|? ?|? ?|? ? ? ?|? ?|?|nf nlive ncap]; try discriminate P;
+  - destruct o as [? ?|? ?|? ?|? ? ?|? ?|?|vb vf|? ?|? ?|?|?|? ?|? ?|? ? ? ?|? ?|?|? ? ?|? ?|? ?|?|?|pf|nf nlive ncap]; try discriminate P;
       cbn [erase proj step_has_cache step_in] in *.
     + (* BVerifyCached *)
       cbn [bstep]. rewrite <- Hbs.
@@ -633,6 +633,11 @@ Proof.
            eapply Hcs, I0.
         -- apply (proj_cached vb vf).
       * cbn [fst snd]. split; [split; assumption | reflexivity].
+    + (* CPurge: an emptied cache is a sound cache; nothing is observed *)
+      cbn [bstep]. destruct (blookup pf (cs_ σ1)) as [c|] eqn:F1; destruct (blookup pf (cs_ σ2)) as [c2|] eqn:F2;
+        cbn [fst snd bs cs_]; (split; [split; [exact Hbs|] | reflexivity]); try exact Hcs;
+        intros f0 c0 I0; apply In_bput in I0 as [I0|I0]; try (eapply Hcs, I0);
+        inversion I0; subst; apply cache_ok_on_empty.
     + (* CNew *)
       cbn [bstep fst snd]. split; [split; cbn [bs cs_]; [exact Hbs|] | reflexivity].
       intros f0 c0 I0. apply In_bput in I0 as [I0|I0]; [inversion I0; subst|eapply Hcs, I0].
@@ -672,7 +677,7 @@ Proof.
   - rewrite (plain_declared fs o r P) in Hd. split.
     + destruct o; try discriminate P; exact I.
     + apply (IH fs); [|exact Hd]. rewrite (plain_cs T σ o P). exact Hfs.
-  - destruct o as [? ?|? ?|? ?|? ? ?|? ?|?|vb vf|? ?|? ?|?|?|? ?|? ?|? ? ? ?|? ?|?|nf nlive ncap]; try discriminate P;
+  - destruct o as [? ?|? ?|? ?|? ? ?|? ?|?|vb vf|? ?|? ?|?|?|? ?|? ?|? ? ? ?|? ?|?|? ? ?|? ?|? ?|?|?|pf|nf nlive ncap]; try discriminate P;
       cbn [declared] in Hd.
     + (* BVerifyCached *)
       apply andb_true_iff in Hd as [Hm Hd]. apply existsb_exists in Hm as (f0 & I0 & E0).
@@ -682,6 +687,10 @@ Proof.
       destruct (blookup vf (cs_ σ)) as [c|]; [|apply Hfs, I1].
       destruct (cverify_list _ _ _ _) as [[ts c'] lg]. cbn [fst cs_]. rewrite blookup_bput.
       destruct (vf =? f0); [discriminate | apply Hfs, I1].
+    + (* CPurge *)
+      split; [exact I|]. apply (IH fs); [|exact Hd]. intros f0 I1. cbn [bstep].
+      destruct (blookup pf (cs_ σ)) as [c|] eqn:F; cbn [fst cs_]; [|apply Hfs, I1].
+      rewrite blookup_bput. destruct (pf =? f0); [discriminate | apply Hfs, I1].
     + (* CNew *)
       split; [exact I|]. apply (IH (nf :: fs)); [|exact Hd]. intros f0 I1. cbn [bstep fst cs_].
       rewrite blookup_bput. destruct (nf =? f0) eqn:E; [discriminate|].
